@@ -21,10 +21,14 @@ def minI (a b : Int) : Int := if a ≤ b then a else b
 
 /-- `ages`: simulated silence before a request; the clean-up goroutine's pass during the silence is
     modelled as one pass right before the request (where the harness runs it). -/
-def chainModel (lim : Limits) (maxBody : Int) (reqs : List (String × Bool × Int)) (ages : List Int) (times : List Int) : List Bool :=
+def chainModel (lim : Limits) (maxBody : Int) (reqs : List (String × Bool × Int)) (ages : List (Int × Int)) (times : List Int) : List Bool :=
   let evs : List Ev := ((reqs.zip times).zip ages).flatMap (fun x =>
     let r : Req := ⟨x.1.2, (x.1.1.1, 0), x.1.1.2.1⟩
-    if x.2 > 0 then [Ev.sweep x.1.2, Ev.req r] else [Ev.req r])
+    let age := x.2.1
+    let n : Nat := if x.2.2 < 1 then 1 else x.2.2.toNat
+    -- n passes during the silence of `age` ms that ends at the request: after age·k/n ms, k = 1..n (the last one at its end)
+    if age > 0 then ((List.range n).map (fun (k : Nat) => Ev.sweep (x.1.2 - age * 1000000 + (age * (Int.ofNat k + 1) / Int.ofNat n) * 1000000))) ++ [Ev.req r]
+    else [Ev.req r])
   let t0 := times.headD 0
   let dec := rateRunS activeEvict lim (RState.init lim t0) evs
   (dec.zip reqs).map (fun x => x.1.2 && sizeAllowed maxBody (declaredOf x.2.2.2))
@@ -38,7 +42,7 @@ def handleChain (case : Nat) (j : Json) : IO Unit := do
   let t0s := obs.map (fun o => jint (jget o "t0"))
   let t1s := obs.map (fun o => jint (jget o "t1"))
   let allowed := obs.map (fun o => jbool (jget o "allowed"))
-  let ages := (jarr (jget j "reqs")).map (fun r => jint (jget r "age_ms"))
+  let ages := (jarr (jget j "reqs")).map (fun r => (jint (jget r "age_ms"), jint (jget r "sweeps")))
   let m0 := chainModel lim maxBody reqs ages t0s
   let m1 := chainModel lim maxBody reqs ages t1s
   let agree := err == "" && obs.length == reqs.length && (allowed == m0 || allowed == m1)
@@ -55,7 +59,10 @@ def handleChain (case : Nat) (j : Json) : IO Unit := do
     ++ (if lim.perIP ≤ 0 then "+bypass" else "")
     ++ (if reqs.any (·.2.1) then "+health" else "")
     ++ (if maxBody > 0 && reqs.any (fun r => r.2.2 > maxBody || r.2.2 < 0) then "+size" else "")
-    ++ (if ages.any (· > 0) then "+silence" else "")
+    ++ (if ages.any (·.1 > 0) then "+silence" else "")
+    ++ (if ages.any (fun a => a.1 > 0 && a.2 > 1) then "+passes" else "")
+    ++ (if lim.perIP > 0 && lim.burst > 10 * lim.perIP && ages.any (·.1 > 0) then
+          (if lim.burst % lim.perIP == 0 then "+refill>10min" else "+refill>10min-fractional") else "")
     ++ (if m0.all id then "+all-admitted" else if m0.any id then "+some-refused" else "+none-admitted")
   emit case agree spec branch (if spec then "" else "validator-chain-exceeds-bucket-bound")
     (if spec && agree then "" else s!"limits global {lim.global} per-ip {lim.perIP} health {lim.health} burst {lim.burst} max-body {maxBody}: chain answered {allowed}, model {m0}; keys over the bound: {bad}; err '{err}'")
